@@ -97,6 +97,11 @@ def _extract_secrets(
         for header_value in header_values:
             string_key, string_value = header_value.strip().split(" ", 1)
             key = string_key_to_enum[string_key]
+            if key in result:
+                # two secrets of one kind: which one did the client mean?
+                raise ClientSecretsException(
+                    "Secret {} given more than once".format(string_key)
+                )
             # (validate=True: without it characters outside of the base64
             # alphabet are skipped, and something that is not base64 at all
             # would be accepted as a secret)
